@@ -332,7 +332,7 @@ def scenarios(ctx: Ctx, rep: Report) -> list[dict]:
 def residuals(ctx: Ctx, rep: Report, scns: list[dict]) -> None:
     rnd = random.Random(ctx.seed + 1)
     pick = scns
-    cap = 320 if ctx.quick else 6000
+    cap = 320 if ctx.quick else 3000
     if len(pick) > cap:
         by = {}
         for s in pick:
@@ -377,7 +377,7 @@ def fit_cases(ctx: Ctx, scns: list[dict]) -> list[dict]:
     by = {}
     for s in usable:
         by.setdefault(s["sc"]["shape"], []).append(s)
-    per_shape = 24 if ctx.quick else 400
+    per_shape = 24 if ctx.quick else 200
     cases = []
     for shape in sorted(by):
         pool = by[shape]
